@@ -142,7 +142,13 @@ fn main() {
         .ok()
         .and_then(|s| s.parse::<f64>().ok())
         .unwrap_or(1.0);
-    let profile = if cfg!(debug_assertions) { "checked" } else { "wrapping" };
+    let profile = if std::env::var("CLV_DEV_BOUNDS").is_ok() {
+        "dev"
+    } else if cfg!(debug_assertions) {
+        "checked"
+    } else {
+        "wrapping"
+    };
     let mut features = Vec::new();
     if cfg!(feature = "std") {
         features.push("std");
@@ -173,13 +179,19 @@ fn main() {
     if !sequential() {
         rayon::ThreadPoolBuilder::new()
             .num_threads(threads)
-            .stack_size(16 << 20)
+            .stack_size(
+                std::env::var("CLV_STACK_MB")
+                    .ok()
+                    .and_then(|s| s.parse::<usize>().ok())
+                    .unwrap_or(16)
+                    << 20,
+            )
             .build_global()
             .ok();
     }
     let mut rep = Report {
         property: property.clone(),
-        tier: if ctx.quick() { "quick" } else { "thorough" }.to_string(),
+        tier: if ctx.tier == Tier::Quick { "quick" } else { "thorough" }.to_string(),
         seed,
         profile: ctx.profile.clone(),
         features: ctx.features.clone(),
